@@ -57,6 +57,7 @@ func mathInt(x uint64) int64 { return int64(x) }
 func isnil[T any](s []T) bool { return s == nil }
 func same[T any](a, b T) bool { return reflect.DeepEqual(a, b) }
 func fresh[T any](p *T) bool { return p != nil }
+func allocated[T any](p *T) bool { return p != nil }
 func isIntegral(x float64) bool { return x == math.Trunc(x) }
 func quant(x float64) int64 { return int64(math.RoundToEven(x)) }
 func pow10(p int) float64 { return math.Pow(10, float64(p)) }
@@ -516,6 +517,50 @@ func assignStmtOf(body *ast.BlockStmt, name string, occ int) ast.Stmt {
 			return false
 		}
 		hit := false
+		if strings.HasPrefix(name, "call:") {
+			// anchor on the occ-th statement that is (or assigns the result of) a call of the named function
+			var call *ast.CallExpr
+			var stmt ast.Stmt
+			switch x := m.(type) {
+			case *ast.FuncLit:
+				return false
+			case *ast.ExprStmt:
+				call, _ = x.X.(*ast.CallExpr)
+				stmt = x
+			case *ast.AssignStmt:
+				if len(x.Rhs) == 1 {
+					call, _ = x.Rhs[0].(*ast.CallExpr)
+					stmt = x
+				}
+			case *ast.IfStmt:
+				// `if f(...) { ... }`: anchored after the whole if statement (the paths that fall through it)
+				call, _ = ast.Unparen(x.Cond).(*ast.CallExpr)
+				if u, ok := ast.Unparen(x.Cond).(*ast.UnaryExpr); ok && u.Op == token.NOT {
+					call, _ = ast.Unparen(u.X).(*ast.CallExpr)
+				}
+				stmt = x
+			}
+			if call != nil {
+				fn := ""
+				switch f := ast.Unparen(call.Fun).(type) {
+				case *ast.Ident:
+					fn = f.Name
+				case *ast.SelectorExpr:
+					fn = f.Sel.Name
+				}
+				want := name[5:]
+				if i := strings.LastIndex(want, "."); i >= 0 {
+					want = want[i+1:]
+				}
+				if fn == want {
+					if n == occ {
+						found = stmt
+					}
+					n++
+				}
+			}
+			return true
+		}
 		switch x := m.(type) {
 		case *ast.FuncLit:
 			return false
